@@ -36,7 +36,7 @@ type c10Batch struct {
 }
 
 var (
-	c10RetrySL = []string{"busy", "tmo", "garbage:chk", "garbage:noise", "garbage:len", "garbage:empty", "garbage:short", "garbage:reflect", "lost", "refused"}
+	c10RetrySL = []string{"busy", "tmo", "garbage:chk", "garbage:noise", "garbage:len", "garbage:empty", "garbage:short", "garbage:reflect", "garbage:nomsg", "lost", "refused"}
 	c10TermSL  = []string{"ok", "cc:c1", "ccb:d4", "cc:ff", "trunc"}
 	c10RetryIn = []string{"busy", "tmo", "garbage:noise", "garbage:authmsg", "badsig", "garbage:chk", "garbage:short", "garbage:reflect"}
 	c10TermIn  = []string{"ok", "cc:c1", "ccb:d4", "cc:ff", "trunc", "lost", "refused"}
